@@ -109,6 +109,7 @@ var (
 )
 
 type cell struct {
+	Scheme int `json:"scheme"` // 0 notary.x509, 1 notary.x509.signingAuthority (not a deviation)
 	Format int `json:"format"`
 	Trust  int `json:"trust"`
 	Ident  int `json:"ident"`
@@ -117,10 +118,13 @@ type cell struct {
 	Rev    int `json:"rev"`
 	Plug   int `json:"plug"`
 	Crit   int `json:"crit"`
+	// Prior 1: the same verifier instance (same collaborators) verified the all-valid signature of the same
+	// scheme and format immediately before; the judged verification must behave as on a fresh verifier.
+	Prior int `json:"prior"`
 }
 
 func (c cell) String(ps []plugSit) string {
-	return fmt.Sprintf("%s %s %s %s %s %s plugin=%s %s", []string{"jws", "cose"}[c.Format], trustNames[c.Trust], identNames[c.Ident], expNames[c.Exp], ctimeNames[c.CTime], revNames[c.Rev], ps[c.Plug].Label, critNames[c.Crit])
+	return fmt.Sprintf("%s %s %s %s %s %s %s plugin=%s %s", []string{"x509", "signingAuthority"}[c.Scheme], []string{"jws", "cose"}[c.Format], trustNames[c.Trust], identNames[c.Ident], expNames[c.Exp], ctimeNames[c.CTime], revNames[c.Rev], ps[c.Plug].Label, critNames[c.Crit])
 }
 
 // ---- world ----
@@ -144,22 +148,27 @@ func newWorld() *world {
 }
 
 type envKey struct {
-	format, exp, ctime, crit int
-	demanded                 bool
-	minver                   string
+	scheme, format, exp, ctime, crit int
+	demanded                         bool
+	minver                           string
 }
 
 func (w *world) envelope(c cell) []byte {
 	s := w.sits[c.Plug]
-	k := envKey{c.Format, c.Exp, c.CTime, c.Crit, s.Demanded, s.MinVer}
+	k := envKey{c.Scheme, c.Format, c.Exp, c.CTime, c.Crit, s.Demanded, s.MinVer}
 	if b, ok := w.envs.Load(k); ok {
 		return b.([]byte)
 	}
 	ch := w.good
+	signTime := w.signTime
 	if c.CTime == 1 {
-		ch = w.expired
+		if c.Scheme == 0 {
+			ch = w.expired // notary.x509 without tsa store: the chain must be valid at verification time
+		} else {
+			signTime = time.Now().Add(-60 * 24 * time.Hour) // signing authority: the signed time lies before the leaf's validity
+		}
 	}
-	sp := forge.Spec{Format: forge.Formats[c.Format], Chain: ch.X509(), Key: ch.Leaf().Key, Payload: forge.PayloadFor(w.desc), SigningTime: w.signTime}
+	sp := forge.Spec{Format: forge.Formats[c.Format], Chain: ch.X509(), Key: ch.Leaf().Key, Payload: forge.PayloadFor(w.desc), SigningTime: signTime, Scheme: []string{forge.SchemeX509, forge.SchemeSA}[c.Scheme]}
 	switch c.Exp {
 	case 1:
 		sp.Expiry = time.Now().Add(24 * time.Hour)
@@ -332,13 +341,14 @@ func revResults(kind int) ([]result.Result, error) {
 func (w *world) run(lv vt.Level, c cell) observation {
 	s := w.sits[c.Plug]
 	ts := mocks.NewTrustStore()
+	storeType := []string{"ca", "signingAuthority"}[c.Scheme]
 	switch c.Trust {
 	case 0:
-		ts.Put("ca", "s", w.good.Root().Cert)
+		ts.Put(storeType, "s", w.good.Root().Cert)
 	case 1:
-		ts.Put("ca", "s", w.other.Root().Cert)
+		ts.Put(storeType, "s", w.other.Root().Cert)
 	case 2:
-		ts.Errs["ca:s"] = errors.New("mock: store cannot be loaded")
+		ts.Errs[storeType+":s"] = errors.New("mock: store cannot be loaded")
 	}
 	ids := []string{"*"}
 	switch c.Ident {
@@ -348,7 +358,7 @@ func (w *world) run(lv vt.Level, c cell) observation {
 		ids = []string{"x509.subject:C=US,ST=WA,O=Other", "x509.subject:C=US,ST=WA,O=Verif,CN=somebody else"}
 	}
 	rv := mocks.Fixed(revResults(c.Rev))
-	opts := verifier.VerifierOptions{OCITrustPolicy: vt.OCIDoc(lv.SV(), []string{"ca:s"}, ids), RevocationCodeSigningValidator: rv}
+	opts := verifier.VerifierOptions{OCITrustPolicy: vt.OCIDoc(lv.SV(), []string{storeType + ":s"}, ids), RevocationCodeSigningValidator: rv}
 	var plug *mocks.VerifyPlugin
 	var mgr *mocks.Manager
 	if !s.ManagerNil {
@@ -368,13 +378,25 @@ func (w *world) run(lv vt.Level, c cell) observation {
 		obs.Viol = append(obs.Viol, "infra/verifier-construction :: "+err.Error())
 		return obs
 	}
+	if c.Prior == 1 {
+		_, _ = v.Verify(ctx, w.desc, w.envelope(cell{Scheme: c.Scheme, Format: c.Format}), notation.VerifierVerifyOptions{ArtifactReference: "reg.io/r@" + w.desc.Digest.String(), SignatureMediaType: forge.Formats[c.Format]})
+		rv.Calls = nil
+		if plug != nil {
+			plug.VerifyCalls, plug.MetadataCalls = nil, 0
+		}
+	}
 	outcome, verr := v.Verify(ctx, w.desc, w.envelope(c), notation.VerifierVerifyOptions{ArtifactReference: "reg.io/r@" + w.desc.Digest.String(), SignatureMediaType: forge.Formats[c.Format]})
 	obs.Accept = verr == nil
 	if verr != nil {
 		obs.Err = verr.Error()
 	}
 	want := decide(lv.Map, c, s)
-	bad := func(key, what string) { obs.Viol = append(obs.Viol, key+" :: "+what) }
+	bad := func(key, what string) {
+		if c.Prior == 1 {
+			key += ":after-earlier-verification-on-same-verifier"
+		}
+		obs.Viol = append(obs.Viol, key+" :: "+what)
+	}
 
 	// 1. the verdict
 	if want.Accept && !obs.Accept {
@@ -548,7 +570,7 @@ func main() {
 		r.Finish()
 	}
 
-	sizes := []int{2, 3, 3, 3, 2, 4, len(w.sits), 4}
+	sizes := []int{2, 2, 3, 3, 3, 2, 4, len(w.sits), 4}
 	maxDev := 3
 	if r.Thorough() {
 		maxDev = len(sizes)
@@ -561,7 +583,7 @@ func main() {
 	var rec func(i int, cur []int, dev int)
 	rec = func(i int, cur []int, dev int) {
 		if i == len(sizes) {
-			c := cell{cur[0], cur[1], cur[2], cur[3], cur[4], cur[5], cur[6], cur[7]}
+			c := cell{Scheme: cur[0], Format: cur[1], Trust: cur[2], Ident: cur[3], Exp: cur[4], CTime: cur[5], Rev: cur[6], Plug: cur[7], Crit: cur[8]}
 			if c.Crit == 3 && c.Format == 0 {
 				return // integer labels exist in COSE only
 			}
@@ -570,7 +592,7 @@ func main() {
 		}
 		for v := 0; v < sizes[i]; v++ {
 			d := dev
-			if v != 0 && i != 0 { // the format is not a deviation
+			if v != 0 && i > 1 { // scheme and format are not deviations
 				d++
 			}
 			if d > maxDev {
@@ -588,6 +610,18 @@ func main() {
 			}
 		}
 		return n
+	}
+	// histories on one verifier instance: every cell with 1..2 deviations (thorough: 1..3) is also judged after the
+	// all-valid signature was verified by the same instance
+	priorMax := 2
+	if r.Thorough() {
+		priorMax = 3
+	}
+	for _, c := range append([]cell(nil), cells...) {
+		if d := devOf(c); d >= 1 && d <= priorMax {
+			c.Prior = 1
+			cells = append(cells, c)
+		}
 	}
 	sort.SliceStable(cells, func(i, j int) bool { return devOf(cells[i]) < devOf(cells[j]) })
 	r.Extra["cells"] = len(cells)
